@@ -17,6 +17,7 @@ Clause → theorem
 | a TWA record read directly is activity-tested on the same variable | `twa_reads_test_own_activity`, `twa_reads_found_checked`, `twa_reads_pinned` |
 | sweeps / auction starters skip controlled apps | `sweeps_skip_controlled`, `sweeps_pinned` |
 | what the code guards beyond the text | `breaker_guarded_pinned`, `esm_guarded_pinned` |
+| SCOPE: every message of ANY module that can write a vault / locker / lend / borrow record (regenerated inventory) is breaker-guarded on every route or reviewed; the text's operations are among the writers; non-message writers pinned | `position_writers_breaker_guarded`, `breaker_unguarded_writers_tight`, `breaker_list_writes_positions`, `nonmsg_position_writers_pinned` |
 
 The expected lists are written out here from the property text (`breakerRefused`, `esmRefused`, `coolOffRefused`) and proved
 equal to the `Spec.*` lists the driver's monitors use. -/
